@@ -69,13 +69,18 @@ class JacCase(Case):
             x0 = float(I['x'][0])
             f = lambda v: float(np.asarray(tr.forward(np.array([v], dtype=float))).flat[0])
             h = max(abs(x0), 1.0) * 2.0 ** -14
+            tr2 = make(self.cls, self.ctor)
+            set_params(tr2, I['P'], I['C'])
+            jac = float(np.asarray(tr2.jacobian(np.array([x0], dtype=float))).flat[0])
             d = central_diff(f, x0, h)
-            jac = float(np.asarray(tr.jacobian(np.array([x0], dtype=float))).flat[0])
             ys = [f(float(v)) for v in I['x']]
             return dict(d=d, jac=jac, y=ys)
+        # the jacobian is asked first, on a freshly built object (its value must not depend on an earlier forward call)
+        tr2 = make(self.cls, self.ctor)
+        set_params(tr2, I['P'], I['C'])
+        jac = list(np.asarray(tr2.jacobian(core.symarray([I['x'][0]])), dtype=object).flat)[0]
         xd = core.symarray([Dual(I['x'][0], 1.0)])
         yd = list(np.asarray(tr.forward(xd), dtype=object).flat)[0]
-        jac = list(np.asarray(tr.jacobian(core.symarray([I['x'][0]])), dtype=object).flat)[0]
         ys = list(np.asarray(tr.forward(core.symarray(I['x'])), dtype=object).flat)
         return dict(d=yd.d if isinstance(yd, Dual) else 0.0, jac=jac, y=ys)
 
